@@ -513,6 +513,21 @@ def _exec_estimator(case, mon):
         return _exec_enumerate_srswor(case, mon)
     shape, kind, dtype = case["shape"], case["kind"], _dt(case["dtype"])
     atol, rtol = _tols(case["dtype"])
+    if not is_log:
+        # round-off of sums of products scales with the size of the terms (function and control-variate values),
+        # not with the size of the (possibly cancelling) result
+        flat = []
+
+        def _walk(x):
+            if isinstance(x, list):
+                for y in x:
+                    _walk(y)
+            else:
+                flat.append(abs(float(x)))
+
+        _walk(case["table"])
+        _walk(case.get("ctable") or [])
+        atol *= max([1.0] + flat)
     N = case["N"]
     omegas = X.omega(fam, shape)
     val, jac, P = X.expectation(fam, kind, shape, case["theta"], case["table"], is_log)
